@@ -47,13 +47,15 @@ def BoolType_any(*x):
 
 
 def keep_left(left, right):
-    """ Returns the left parameter """
-    return left
+    """ The result has the type of the left parameter (but is a new value,
+    so later changes to it must not reach the operand) """
+    return left.clone()
 
 
 def keep_right(left, right):
-    """ Returns the right parameter """
-    return right
+    """ The result has the type of the right parameter (but is a new value,
+    so later changes to it must not reach the operand) """
+    return right.clone()
 
 
 # Maps the operations to their return types, based on the values.
